@@ -56,9 +56,11 @@ structure Facts where
   oneConsumerPopAnyway : Bool   -- Worker.Start: `go w.runLoop()`; runLoop: PopAnyway + handleAsync; asyncCall: AddReq then R()
   routeByLocHash : Bool         -- every WorkerGrp.DoX: `w.ws[w.locHash(k)].DoX(…)`
   queueFifo : Bool              -- mux.Q: AddReq PushBack, PopAnyway Front
+  facadeShape : Bool            -- cacheex.go: FacadeMap = cache.Map with Peek = Get; FacadeLRU Peek/Get/Set/Delete pass
+                                -- straight through to LRUCache with the `_wrapper{v}` (size 1), whatever the value (nil included)
 deriving DecidableEq, Repr
 
-def Facts.expected : Facts := ⟨true, true, true, true, true, true, true, true, true, true, true⟩
+def Facts.expected : Facts := ⟨true, true, true, true, true, true, true, true, true, true, true, true⟩
 
 /-! ### store -/
 
